@@ -305,7 +305,40 @@ func (r *Runner) mergeInto(a, b *State) bool {
 			return false
 		}
 	}
+	// call history: keep records present in both states (arguments merged by value)
+	lastCall := map[string]callRec{}
+	for k, ra := range a.lastCall {
+		rb, ok := b.lastCall[k]
+		if !ok || len(ra.args) != len(rb.args) || len(ra.rets) != len(rb.rets) {
+			continue
+		}
+		okAll := true
+		nr := callRec{}
+		for i := range ra.args {
+			mv, ok := mergeVal(g, ra.args[i], rb.args[i])
+			if !ok {
+				okAll = false
+				break
+			}
+			nr.args = append(nr.args, mv)
+		}
+		for i := range ra.rets {
+			if !okAll {
+				break
+			}
+			mv, ok := mergeVal(g, ra.rets[i], rb.rets[i])
+			if !ok {
+				okAll = false
+				break
+			}
+			nr.rets = append(nr.rets, mv)
+		}
+		if okAll {
+			lastCall[k] = nr
+		}
+	}
 	// commit
+	a.lastCall = lastCall
 	sufA, sufB := a.pc[n:], b.pc[n:]
 	a.pc = append(append([]Term{}, a.pc[:n]...), Eq(g, ga), Or(And(sufA...), And(sufB...)))
 	_ = gb
